@@ -69,10 +69,10 @@ MAX_RESTARTS = 4           # per batch
 # ---------------------------------------------------------------------------
 
 FIXED_CHARS = ['R', 'C', 'M', '1', '0', "'", '"', '-', '(', ')', ',', ';', '.', '\n', '\x00', ' ', '\t', '\r',
-               '\\', '_', '*', '/', '\x0c', '%']
+               '\\', '_', '*', '/', '\x0c', '%', '\xa0', '\x0b']
 PAL_CHARS = [
     ['a', 'E', 'x', '\xe9', '7', '$', '\u0663'],
-    ['b', 'T', 'q', '\xdf', '5', '#', '\xa0'],
+    ['b', 'T', 'q', '\xdf', '5', '#', '\u3000'],
     ['z', 'F', 'e', '\u03bb', '9', '&', '\u2028'],
     ['k', 'N', 'o', '\xe5', '3', '@', '\u0661'],
 ]
@@ -272,7 +272,10 @@ def position_pool(seed):
         # illegal token on line 5, after a complete statement that spans two lines
         'INSERT INTO %s VALUES (1,\n2);\nINSERT INTO %s VALUES (\n\n;' % (B, B),
         # illegal cardinality (raised by a grammar action) on line 6
-        '\nCREATE TABLE %s (Id INTEGER);\n\n\nCREATE ROP REF_ID R7 FROM\n 2 %s (B_Id) TO 1 %s (Id);\n' % (Z, A, B),
+        # (it spells the names the accepted texts use -- classes, attributes, types -- in another letter case: nothing of a
+        # rejected text may show in what is accepted later)
+        '\nCREATE TABLE %s (id integer, nm string, cnt Integer, b_id unique_id);\n\n\nCREATE ROP REF_ID R7 FROM\n 2 %s (b_id) TO 1 %s (id);\n' %
+        (Z, A.swapcase(), B.swapcase()),
     ]
     return good + bad
 
